@@ -17,7 +17,7 @@ import (
 )
 
 type ev struct {
-	K    byte // W write, D derive (With), B burst
+	K    byte // W write, D derive (With), E derive with an empty field list, B burst
 	Core int
 	N    int
 }
@@ -28,6 +28,8 @@ func (e ev) String() string {
 		return fmt.Sprintf("core%d.Write", e.Core)
 	case 'D':
 		return fmt.Sprintf("core%d.With(field)", e.Core)
+	case 'E':
+		return fmt.Sprintf("core%d.With(no fields)", e.Core)
 	case 'B':
 		return fmt.Sprintf("core%d.Write x%d", e.Core, e.N)
 	}
@@ -95,6 +97,13 @@ func (w *World) Apply(e ev) (fail string) {
 		}
 	case 'D':
 		w.Cores = append(w.Cores, w.Cores[e.Core].With([]zapcore.Field{zap.Int("derived", len(w.Cores))}))
+	case 'E':
+		// a derivation that adds nothing (logger.With() / WithOptions(zap.Fields())): still a logger of the same buffer
+		if len(w.Cores)%2 == 0 {
+			w.Cores = append(w.Cores, w.Cores[e.Core].With(nil))
+		} else {
+			w.Cores = append(w.Cores, w.Cores[e.Core].With([]zapcore.Field{}))
+		}
 	}
 	return ""
 }
@@ -203,7 +212,7 @@ func SeqPart(rep *rt.Report, tier rt.Tier) *seq.Stats {
 		evs = append(evs, ev{K: 'W', Core: c})
 	}
 	for c := 0; c < maxCores-1; c++ {
-		evs = append(evs, ev{K: 'D', Core: c})
+		evs = append(evs, ev{K: 'D', Core: c}, ev{K: 'E', Core: c})
 	}
 	for _, b := range bursts {
 		for c := 0; c < maxCores; c++ {
@@ -217,7 +226,7 @@ func SeqPart(rep *rt.Report, tier rt.Tier) *seq.Stats {
 		Enabled: func(h []uint8, op int) bool {
 			cores, nb := 1, 0
 			for _, x := range h {
-				if evs[x].K == 'D' {
+				if evs[x].K == 'D' || evs[x].K == 'E' {
 					cores++
 				}
 				if evs[x].K == 'B' {
@@ -228,7 +237,7 @@ func SeqPart(rep *rt.Report, tier rt.Tier) *seq.Stats {
 			if e.Core >= cores {
 				return false
 			}
-			if e.K == 'D' {
+			if e.K == 'D' || e.K == 'E' {
 				return cores < maxCores
 			}
 			if e.K == 'B' {
